@@ -9,4 +9,11 @@ theorem stepC_c0 {s s' : State} {t : Nat} {l : Label} {secs : Int} {g0 : Bool} (
   | (cases hs; ccase)
   | (split at hs <;> first | (cases hs; done) | (cases hs; ccase))
 
+theorem stepC_c0a {s s' : State} {t : Nat} {l : Label} {secs : Int} {g0 : Bool} (h : Inv s) (ht : t ≠ 0) (hp : s.cpc t = .c0a secs g0)
+    (hs : stepC s t = some (s', l)) : Inv s' := by
+  unfold stepC at hs; rw [hp] at hs; simp only at hs
+  first
+  | (cases hs; ccase)
+  | (split at hs <;> first | (cases hs; done) | (cases hs; ccase))
+
 end MoThreads.Till
